@@ -219,6 +219,9 @@ class BaseSection(base.Sectionable):
         new_section = term.get_section_by_path(
             path) if path is not None else term.sections[0]
 
+        # Make sure the merge is possible before anything is changed.
+        self.merge_check(new_section, False)
+
         if self._include is not None:
             self.clean()
         self._include = new_value
@@ -260,6 +263,10 @@ class BaseSection(base.Sectionable):
 
         # raises exception if path cannot be found
         new_section = self.get_section_by_path(new_value)
+
+        # Make sure the merge is possible before anything is changed.
+        self.merge_check(new_section, False)
+
         if self._link is not None:
             self.clean()
         self._link = new_value
